@@ -212,6 +212,9 @@ def run(tier):
             p = fm[0]["p"]
             ok = len(fm) == 1 and len(p) == 1 and isinstance(p[0], dict) and any((x.get("def") or "").endswith("SyntaxNode::<L>::text") for x in facts.walk(p[0]))
         C.ob("C09/display-is-text", t, ok, "Display must write exactly the syntax node's text", f["sp"])
+        import rowanmodel
+        ok2, det = rowanmodel.display_writes_text(F, k)
+        C.ob("C09/display-is-text", t + " (interpreted)", ok2, det, f["sp"])
     C.assumptions += ["rowan text() = concatenation of builder.token texts", "peek_past_ws behaves as its summary beyond 3 tokens (uniform loop; validated exhaustively up to 3)"]
     return C.finish("Lexer: next_token is interpreted for 131 character classes (one known first character, unknown followers) with a monitor that every consumed character is appended. "
                     "Parser: fixpoint over all kind sequences for 5 entry points; conservation/order/balance/progress monitors; strict/tolerant agreement read off the outcome states.")
